@@ -118,3 +118,8 @@ Proof. repeat split; reflexivity. Qed.
 From SymfcG Require Import ShapesSolvers SkelSolvers.
 Theorem c08_code_path_in_force : ShapesSolvers_as_recorded = true /\ SkelSolvers_as_recorded = true.
 Proof. repeat split; reflexivity. Qed.
+
+(** Further code on this property's path (compact and full arrays come from the same construction: every stage) is the recorded source: whole-function / skeleton match, regenerated on every run. *)
+From SymfcG Require Import ShapesCombos ShapesPerm ShapesCoset ShapesSumRule ShapesSpg ShapesO1 ShapesAuxO1 ShapesAuxEig ShapesAuxBatch ShapesGeom ShapesAuxCut SkelEig SkelMat SkelPerm SkelCut.
+Theorem c08_code_path3_in_force : ShapesCombos_as_recorded = true /\ ShapesPerm_as_recorded = true /\ ShapesCoset_as_recorded = true /\ ShapesSumRule_as_recorded = true /\ ShapesSpg_as_recorded = true /\ ShapesO1_as_recorded = true /\ ShapesAuxO1_as_recorded = true /\ ShapesAuxEig_as_recorded = true /\ ShapesAuxBatch_as_recorded = true /\ ShapesGeom_as_recorded = true /\ ShapesAuxCut_as_recorded = true /\ SkelEig_as_recorded = true /\ SkelMat_as_recorded = true /\ SkelPerm_as_recorded = true /\ SkelCut_as_recorded = true.
+Proof. repeat split; reflexivity. Qed.
